@@ -114,14 +114,16 @@ LEVEL_TEXT = ("Proved in Lean 4 for any number of connections, concurrent and se
               "no serve() starts or ends, running() stays false and neither the destroyed server nor the thread object it owns is "
               "ever used: the accept thread, which is still finishing when stop(true) returns, has completely ended before the "
               "destructor frees anything (after_stop_nothing_happens, never_used_after_destruction, accept_thread_ended_before_free; "
-              "destroy_without_join_unsafe is the counterexample for the destructor as it was before its repair). Tie: hook-point "
+              "destroy_without_join_unsafe is the counterexample for the destructor as it was before its repair); with any number of "
+              "failed accept() calls in between, serve() is never called on a socket that is not a connection "
+              "(only_connections_are_served; failed_accept_served_unsafe is the loop before its repair). Tie: hook-point "
               "traces of the real server (TCP and Unix sockets, one or two endpoints, both modes, 0..200 clients, bursts/trickles/"
-              "early closes/slow clients, stop at a seeded moment, destruction with threads alive, seeded jitter incl. a busy accept "
+              "early closes/slow clients/accept() failing with EMFILE (interposed; trace event F), stop at a seeded moment, destruction with threads alive, seeded jitter incl. a busy accept "
               "thread at its very end, ASan) must each be accepted step by step by the model, and per-connection token oracles are "
               "checked on the real server.")
 LEVEL_NOTE = ("Trusted: POSIX socket semantics, atomic plain-bool flags, the recording harness and acceptor. The traces come from OS "
               "scheduling with injected jitter, not from exhaustive enumeration; liveness (stop(true) eventually returns) is not "
               "claimed. Not modelled (observed by the harness oracles and ASan only): the reference-counted Socket handle staying "
-              "valid during serve(), several listening sockets and the activeAt(i) batch of one select round, accept() returning an "
-              "invalid socket (such a 'connection' is still counted and served: the badsock oracle). Connections whose token never "
+              "valid during serve(), several listening sockets and the activeAt(i) batch of one select round. A failed accept() is "
+              "one atomic model step that leaves the state alone (the 10 ms pause is not modelled). Connections whose token never "
               "arrives (client closed early) are judged for exactly-once by the trace acceptor only.")
